@@ -478,6 +478,19 @@ def check(chk):
     _opp_poll(chk, repo)
     _snapshot_applied(chk, repo)
 
+    # PKONE framing: the serial layer cuts a frame at the terminator and hands it on *without* it (received_msg[:pos]); direct callers pass the
+    # frame with its terminator.  The platform therefore removes the terminator by value - it never drops the last character by position.
+    pkp = repo.func("mpf/platforms/pkone/pkone.py", "PKONEHardwarePlatform.process_received_message")
+    chk.analysed(pkp)
+    pay = [x for x in walk_local(pkp.node) if isinstance(x, ast.Assign) and src(x.targets[0]) == "payload"]
+    chk.need(pay, "FRAME-2", "the PKONE platform separates command and payload", pkp)
+    pkc = repo.func(PK, "PKONESerialCommunicator._parse_msg")
+    strips = any(isinstance(x, ast.Assign) and src(x.targets[0]) == "msg" and src(x.value).replace(" ", "") == "self.received_msg[:pos]" for x in walk_local(pkc.node))
+    cut = [sl for x in pay for sl in ast.walk(x.value) if isinstance(sl, ast.Slice) and sl.upper is not None and
+           (isinstance(sl.upper, ast.UnaryOp) or (isinstance(sl.upper, ast.Constant) and isinstance(sl.upper.value, int) and sl.upper.value < 0))]
+    chk.ob("FRAME-2", "the PKONE platform does not cut the payload's last character by position (frames from the serial layer arrive without the "
+           "terminator)", not (strips and cut), pkp.where(pay[0]), detail="payload = %s" % src(pay[0].value), construct=pkp.ident,
+           text="payload cut by position")
     # start-up collection of the initial input reports: the loop ends exactly when every card has answered.  Chunk contents decide nothing:
     # data bytes may equal the delimiter (0xff = eight open inputs), a chunk of one 0xff is not the end of the answer.
     ic = repo.func(OS_, "OPPSerialCommunicator._identify_connection")
@@ -787,6 +800,7 @@ def _reaches_switch_update(repo, cls, m):
 def battery():
     from sa.battery import M
     return [
+        M("PKONE payload loses its last character", "mpf/platforms/pkone/pkone.py", "        payload = msg[3:].replace('E', '')", "        payload = msg[3:-1]", "FRAME-2"),
         M("twin: start-up collection exit as a guard clause", OS_, "            if cards <= 0:\n                break\n            self.log.debug(\"Waiting for another %s cards\", cards)", "            if cards > 0:\n                self.log.debug(\"Waiting for another %s cards\", cards)\n                continue\n            break", None),
         M("a lone delimiter byte ends the start-up collection", OS_, "            if cards <= 0:\n                break", "            if cards <= 0 or resp == OppRs232Intf.EOM_CMD:\n                break", "DOM-29"),
         M("PKONE dispatches the raw chunk instead of the frame", "mpf/platforms/pkone/pkone_serial_communicator.py", "            msg = self.received_msg[:pos]\n", "            frame = self.received_msg[:pos]\n", "PAIR-15",
